@@ -1,9 +1,11 @@
 /-
   C07 — annotations: what the evaluator's compressed annotation record stands for, that a failed
   subschema and `not` contribute nothing, and that `unevaluatedProperties` / `unevaluatedItems` are applied
-  to exactly the complement of the evaluated set.  Property theorems only (proofs: JSV/Proofs/Refine*.lean).
+  to exactly the complement of the evaluated set.  Property theorems only (proofs: JSV/Proofs/Refine*.lean; for the
+  section "algebraic laws" — `child_locations_invisible`, `cousins_invisible` — JSV/Proofs/SpecLawsLoc.lean).
 -/
 import JSV.Props.C01
+import JSV.Proofs.SpecLawsLoc
 namespace JSV.C07
 open JSV Go GoVal Refine
 
@@ -269,5 +271,220 @@ example : γitem (({ endIndex := 2 } : Anns).merge { evaluatedIndexes := [5] }) 
 example : γitem (({} : Anns).noteEndIndex 3) 2 = true ∧ γitem (({} : Anns).noteEndIndex 3) 3 = false := by decide
 example : γprop (({} : Anns).noteProperties ["a"]) "a" = true ∧ γprop (({} : Anns).noteProperties ["a"]) "b" = false := by
   decide
+
+/-! ## algebraic laws
+
+The annotation halves of the laws of `C01` (double negation, `if` alone), and the two locality statements: evaluations at
+child instance locations, and in subschemas applied there by a sibling branch ("cousins"), are invisible at this location. -/
+
+section laws
+variable (env : Spec.Env) (fuel : Nat) (scope : List NodeId) (s : NodeId) (n : Node) (j : Json)
+
+/-- Spec: `not (not t)`, where valid, evaluates NOTHING — whatever `t` evaluated -/
+theorem not_not_evaluates_nothing (m : NodeId) (nm : Node) (t : NodeId) (hn : env.st.get? s = some n)
+    (hk : Laws.keywords n = { not := some m }) (hm : env.st.get? m = some nm) (hkm : Laws.keywords nm = { not := some t })
+    (ev : Spec.Ev) (h : Spec.evalFuel env (fuel + 2) scope s j = some (some ev)) : ev.props = [] ∧ ev.items = [] := by
+  rw [C01.not_not env fuel scope s n j m nm t hn hk hm hkm] at h
+  cases hr : Spec.evalFuel env fuel (scope ++ [s] ++ [m]) t j with
+  | none => rw [hr] at h; cases h
+  | some r =>
+    rw [hr] at h
+    cases r with
+    | none => cases h
+    | some e =>
+      simp only [Option.map_some, Option.some.injEq] at h
+      subst h; exact ⟨rfl, rfl⟩
+
+/-- Spec: `if` alone with a condition that holds evaluates what the condition evaluated -/
+theorem if_alone_annotations (c : NodeId) (evc : Spec.Ev) (hn : env.st.get? s = some n)
+    (hk : Laws.keywords n = { if_ := some c }) (hc : Spec.evalFuel env fuel (scope ++ [s]) c j = some (some evc)) :
+    Spec.evalFuel env (fuel + 1) scope s j = some (some evc) := by
+  rw [C01.if_alone env fuel scope s n j c hn hk, hc]; rfl
+
+/-- Spec: `if` alone with a condition that fails is valid and evaluates nothing -/
+theorem if_alone_failed_condition (c : NodeId) (hn : env.st.get? s = some n) (hk : Laws.keywords n = { if_ := some c })
+    (hc : Spec.evalFuel env fuel (scope ++ [s]) c j = some none) :
+    Spec.evalFuel env (fuel + 1) scope s j = some (some {}) := by
+  rw [C01.if_alone env fuel scope s n j c hn hk, hc]; rfl
+
+/-- **`child_locations_invisible`.**  The keywords that apply subschemas at child instance locations use of these
+    applications the verdict only: erasing what they evaluated (`Laws.forget`) changes nothing — neither the verdict of
+    the keyword nor what it reports as evaluated at this location -/
+theorem child_locations_invisible (sub : NodeId → Json → Spec.Out) (ev : Spec.Ev) :
+    Spec.kwProps env (fun t v => Laws.forget (sub t v)) n j = Spec.kwProps env sub n j ∧
+    Spec.kwPropertyNames (fun t v => Laws.forget (sub t v)) n j = Spec.kwPropertyNames sub n j ∧
+    Spec.kwItems env (fun t v => Laws.forget (sub t v)) n j = Spec.kwItems env sub n j ∧
+    Spec.kwContains (fun t v => Laws.forget (sub t v)) n j = Spec.kwContains sub n j ∧
+    Spec.kwUnevaluatedItems (fun t v => Laws.forget (sub t v)) n j ev = Spec.kwUnevaluatedItems sub n j ev ∧
+    Spec.kwUnevaluatedProps (fun t v => Laws.forget (sub t v)) n j ev = Spec.kwUnevaluatedProps sub n j ev :=
+  ⟨Laws.kwProps_forget env sub n j, Laws.kwPropertyNames_forget sub n j, Laws.kwItems_forget env sub n j,
+    Laws.kwContains_forget sub n j, Laws.kwUnevaluatedItems_forget sub n j ev, Laws.kwUnevaluatedProps_forget sub n j ev⟩
+
+/-- … concretely: a schema object whose only keyword is `properties`, valid on an object, evaluates exactly the members it
+    names and no item, whatever its subschemas evaluated inside the member values -/
+theorem properties_evaluates_names_only (ps : List (String × NodeId)) (kvs : List (String × Json)) (ev : Spec.Ev)
+    (hn : env.st.get? s = some n) (hk : Laws.keywords n = { properties := some ps })
+    (h : Spec.evalFuel env (fuel + 1) scope s (.obj kvs) = some (some ev)) :
+    ev = { props := (kvs.filter fun p => (Json.lookup p.1 ps).isSome).map (·.1), items := [] } := by
+  rw [Laws.evalFuel_succ_of env fuel scope s _ n _ hn hk] at h
+  have h' := Laws.specBody_props env (Spec.evalFuel env fuel) scope s (.obj kvs) (some ps) none none
+  rw [h'] at h
+  exact Laws.kwProps_properties_only env _ ps kvs ev h
+
+/-- one step of the Spec at the instance `j` under two families of recursive calls that agree at `j` itself and, at every
+    other instance, on definedness and verdict: the same outcome, evaluated sets included -/
+theorem step_sees_verdicts_elsewhere (rec rec' : Spec.Rec) (h : Laws.AgreeAt j rec rec') :
+    Spec.evalStep env rec' scope s j = Spec.evalStep env rec scope s j :=
+  Laws.evalStep_agree env rec rec' scope s j h
+
+/-- **`cousins_invisible`.**  Every application of the Spec at `(s, j)` is one step over the recursive calls with the
+    evaluated sets ERASED at every instance other than `j` (`Laws.eraseOff`).  The law holds for every schema object and
+    every fuel, hence at every level of the in-place nesting (`allOf` / `anyOf` / `oneOf` / `if` / `$ref` …, applied to `j`
+    itself and therefore not erased): whatever a subschema, a sibling branch or a subschema of a sibling branch evaluated
+    at a child location is not visible to the `unevaluated*` of this schema object, nor in what it reports itself. -/
+theorem cousins_invisible :
+    Spec.evalFuel env (fuel + 1) scope s j = Spec.evalStep env (Laws.eraseOff j (Spec.evalFuel env fuel)) scope s j :=
+  Laws.evalFuel_eraseOff env fuel scope s j
+
+end laws
+
+section laws_go
+variable (env : VEnv) (hwf : EnvWF env) (hst : StoreWF env.st) (fuel : Nat) (stack : List NodeId)
+  (hstack : ∀ x, x ∈ stack → (env.info? x).isSome = true) (s : NodeId) (n : Node) (j : Json) (hj : Json.WF j = true)
+include hwf hst hstack hj
+
+/-- evaluator: `not (not t)` returns annotations that mark nothing as evaluated -/
+theorem not_not_drops_annotations (m : NodeId) (nm : Node) (t : NodeId) (hn : env.st.get? s = some n)
+    (hk : Laws.keywords n = { not := some m }) (hm : env.st.get? m = some nm) (hkm : Laws.keywords nm = { not := some t })
+    (hdef : (Spec.evalFuel (specEnvOf env) fuel (stack ++ [s] ++ [m]) t j).isSome = true) (a : Anns)
+    (ha : Go.validateFuel env (fuel + 2) stack (GoVal.ofJson j) s = .ok a) :
+    (∀ k, k ∈ keysOf j → γprop a k = false) ∧ (∀ i, i < lenOf j → γitem a i = false) := by
+  obtain ⟨r, hr⟩ := Option.isSome_iff_exists.1 hdef
+  have hl := C01.not_not (specEnvOf env) fuel stack s n j m nm t hn hk hm hkm
+  rw [hr] at hl
+  cases r with
+  | none =>
+    have := Laws.go_verdict env hwf hst _ _ hstack s j hj _ hl
+    rw [ha] at this; cases this
+  | some e =>
+    obtain ⟨a', ha', hm'⟩ := Laws.go_anns env hwf hst _ _ hstack s j hj {} hl
+    rw [ha] at ha'; cases ha'
+    exact (Laws.AnnsMatch_empty_iff j a).1 hm'
+
+/-- evaluator: `if` alone whose condition holds returns annotations for the sets the condition's annotations stand for -/
+theorem if_alone_annotations_go (c : NodeId) (evc : Spec.Ev) (hn : env.st.get? s = some n)
+    (hk : Laws.keywords n = { if_ := some c })
+    (hc : Spec.evalFuel (specEnvOf env) fuel (stack ++ [s]) c j = some (some evc)) :
+    ∃ a ac, Go.validateFuel env (fuel + 1) stack (GoVal.ofJson j) s = .ok a ∧
+      Go.validateFuel env fuel (stack ++ [s]) (GoVal.ofJson j) c = .ok ac ∧
+      (∀ k, k ∈ keysOf j → γprop a k = γprop ac k) ∧ (∀ i, i < lenOf j → γitem a i = γitem ac i) := by
+  have hs' := Laws.stack_snoc env hwf stack hstack s n hn
+  obtain ⟨a, ha, hm⟩ := Laws.go_anns env hwf hst _ _ hstack s j hj evc
+    (if_alone_annotations (specEnvOf env) fuel stack s n j c evc hn hk hc)
+  obtain ⟨ac, hac, hmc⟩ := Laws.go_anns env hwf hst _ _ hs' c j hj evc hc
+  exact ⟨a, ac, ha, hac, fun k hk' => by rw [hm.1 k hk', hmc.1 k hk'], fun i hi => by rw [hm.2 i hi, hmc.2 i hi]⟩
+
+/-- evaluator (`child_locations_invisible` through `annotations_exact`): a schema object whose only keyword is
+    `properties` returns, on an object it accepts, annotations that mark as evaluated exactly the members named in
+    `properties` — whatever the subschemas noted while validating the member values -/
+theorem child_locations_invisible_go (ps : List (String × NodeId)) (kvs : List (String × Json))
+    (hjo : j = .obj kvs) (hn : env.st.get? s = some n) (hk : Laws.keywords n = { properties := some ps })
+    (hdef : (Spec.evalFuel (specEnvOf env) (fuel + 1) stack s j).isSome = true) (a : Anns)
+    (ha : Go.validateFuel env (fuel + 1) stack (GoVal.ofJson j) s = .ok a) :
+    ∀ k, k ∈ keysOf j → γprop a k = (Json.lookup k ps).isSome := by
+  subst hjo
+  obtain ⟨r, hr⟩ := Option.isSome_iff_exists.1 hdef
+  cases r with
+  | none =>
+    have := Laws.go_verdict env hwf hst _ _ hstack s _ hj _ hr
+    rw [ha] at this; cases this
+  | some ev =>
+    obtain ⟨a', ha', hm⟩ := Laws.go_anns env hwf hst _ _ hstack s _ hj ev hr
+    rw [ha] at ha'; cases ha'
+    have he := properties_evaluates_names_only (specEnvOf env) fuel stack s n ps kvs ev hn hk hr
+    intro k hk'
+    rw [hm.1 k hk', he]
+    rw [Bool.eq_iff_iff]
+    simp only [List.contains_iff_mem, List.mem_map, List.mem_filter]
+    constructor
+    · rintro ⟨p, ⟨_, hp⟩, rfl⟩; exact hp
+    · intro hl
+      obtain ⟨p, hp, rfl⟩ := List.mem_map.1 hk'
+      exact ⟨p, ⟨hp, hl⟩, rfl⟩
+
+/-- evaluator (`cousins_invisible` through `annotations_exact`): the annotations returned for `(s, j)` stand for the sets
+    that one step of the Spec computes from recursive calls ERASED at every instance other than `j` -/
+theorem cousins_invisible_go (ev : Spec.Ev)
+    (h : Spec.evalStep (specEnvOf env) (Laws.eraseOff j (Spec.evalFuel (specEnvOf env) fuel)) stack s j = some (some ev)) :
+    ∃ a, Go.validateFuel env (fuel + 1) stack (GoVal.ofJson j) s = .ok a ∧
+      (∀ k, k ∈ keysOf j → γprop a k = ev.props.contains k) ∧ (∀ i, i < lenOf j → γitem a i = ev.items.contains i) := by
+  rw [← cousins_invisible] at h
+  exact Laws.go_anns env hwf hst _ _ hstack s j hj ev h
+
+end laws_go
+
+/-! ### the laws instantiated
+
+`{"allOf": [{"properties": {"a": {"properties": {"b": {}}}}}], "unevaluatedProperties": false}`: the branch of the `allOf`
+evaluates `a` at this location; the subschema it applies to the value of `a` evaluates `b` THERE.  On
+`{"a": {"b": 1}, "b": 2}` the member `b` of the root is therefore unevaluated, and rejected. -/
+
+def cousinStore : Store := #[
+  { allOf := some [1], unevaluatedProperties := some 4 },
+  { properties := some [("a", 2)] },
+  { properties := some [("b", 3)] },
+  {},
+  { not := some 3 } ]
+
+def cousinEnv : VEnv :=
+  { st := cousinStore, draft := .d2020, infos := (List.range cousinStore.size).map fun i => (i, { base := some 0 }),
+    reMatch := fun _ _ => false, hash := fun _ => 0 }
+
+theorem cousinEnv_wf : EnvWF cousinEnv := EnvWF_of_checks cousinEnv (by decide) (by decide) (fun _ _ _ => rfl)
+theorem cousinEnv_store : StoreWF cousinEnv.st := StoreWF_of_check _ (by decide)
+
+def cousinBad : Json := .obj [("a", .obj [("b", .num 1)]), ("b", .num 2)]
+def cousinGood : Json := .obj [("a", .obj [("b", .num 1)])]
+
+/-- the branch (node 1) evaluates `a` only, although the subschema under `a` evaluated `b` -/
+example : Spec.evalFuel (specEnvOf cousinEnv) 3 [0] 1 cousinBad = some (some { props := ["a"] }) := by rfl
+example : Spec.evalFuel (specEnvOf cousinEnv) 2 [0, 1] 2 (.obj [("b", .num 1)]) = some (some { props := ["b"] }) := by rfl
+example : Spec.evalFuel (specEnvOf cousinEnv) 3 [0] 1 cousinBad
+    = some (some { props := (([("a", Json.obj [("b", .num 1)]), ("b", .num 2)] : List (String × Json)).filter
+        fun p => (Json.lookup p.1 [("a", 2)]).isSome).map (·.1), items := [] }) :=
+  congrArg (fun e => some (some e))
+    (properties_evaluates_names_only (specEnvOf cousinEnv) 2 [0] 1 _ [("a", 2)] _ _ rfl rfl (by rfl))
+/-- hence the root rejects `{"a": {"b": 1}, "b": 2}` and accepts `{"a": {"b": 1}}` -/
+example : (Spec.evalFuel (specEnvOf cousinEnv) 4 [] 0 cousinBad).map (·.isSome) = some false := by decide
+example : (Spec.evalFuel (specEnvOf cousinEnv) 4 [] 0 cousinGood).map (·.isSome) = some true := by decide
+example : (Go.validateFuel cousinEnv 4 [] (GoVal.ofJson cousinBad) 0).verdict = some false := by decide
+example : (Go.validateFuel cousinEnv 4 [] (GoVal.ofJson cousinGood) 0).verdict = some true := by decide
+/-- `cousins_invisible` at the root -/
+example : Spec.evalFuel (specEnvOf cousinEnv) 4 [] 0 cousinBad
+    = Spec.evalStep (specEnvOf cousinEnv) (Laws.eraseOff cousinBad (Spec.evalFuel (specEnvOf cousinEnv) 3)) [] 0 cousinBad :=
+  cousins_invisible _ 3 [] 0 cousinBad
+/-- `child_locations_invisible_go`: the annotations of the branch mark `a`, not `b` -/
+example (a : Anns) (ha : Go.validateFuel cousinEnv 3 [0] (GoVal.ofJson cousinBad) 1 = .ok a) :
+    γprop a "a" = true ∧ γprop a "b" = false :=
+  have h := child_locations_invisible_go cousinEnv cousinEnv_wf cousinEnv_store 2 [0] (by decide) 1 _ cousinBad (by decide)
+    [("a", 2)] _ rfl rfl rfl (by decide) a ha
+  ⟨h "a" (by decide), h "b" (by decide)⟩
+example : (Go.validateFuel cousinEnv 3 [0] (GoVal.ofJson cousinBad) 1).isOk = true := by decide
+
+/-- `not (not s)` and `if s` on the nodes of `C01.lawStore` -/
+example : ({} : Spec.Ev).props = [] ∧ ({} : Spec.Ev).items = [] :=
+  not_not_evaluates_nothing (specEnvOf C01.lawEnv) 2 [] 10 _ C01.lawGood 11 _ 2 rfl rfl rfl rfl {} (by rfl)
+example (a : Anns) (ha : Go.validateFuel C01.lawEnv 4 [] (GoVal.ofJson C01.lawGood) 10 = .ok a) : γprop a "a" = false :=
+  (not_not_drops_annotations C01.lawEnv C01.lawEnv_wf C01.lawEnv_store 2 [] (fun _ h => nomatch h) 10 _ C01.lawGood
+    (by decide) 11 _ 2 rfl rfl rfl rfl (by decide) a ha).1 "a" (by decide)
+example : Spec.evalFuel (specEnvOf C01.lawEnv) 3 [] 16 C01.lawGood = some (some { props := ["a"] }) :=
+  if_alone_annotations (specEnvOf C01.lawEnv) 2 [] 16 _ C01.lawGood 2 _ rfl rfl (by rfl)
+example : Spec.evalFuel (specEnvOf C01.lawEnv) 3 [] 16 C01.lawBad = some (some {}) :=
+  if_alone_failed_condition (specEnvOf C01.lawEnv) 2 [] 16 _ C01.lawBad 2 rfl rfl (by rfl)
+example : ∃ a ac, Go.validateFuel C01.lawEnv 3 [] (GoVal.ofJson C01.lawGood) 16 = .ok a ∧
+    Go.validateFuel C01.lawEnv 2 [16] (GoVal.ofJson C01.lawGood) 2 = .ok ac ∧
+    (∀ k, k ∈ keysOf C01.lawGood → γprop a k = γprop ac k) ∧ (∀ i, i < lenOf C01.lawGood → γitem a i = γitem ac i) :=
+  if_alone_annotations_go C01.lawEnv C01.lawEnv_wf C01.lawEnv_store 2 [] (fun _ h => nomatch h) 16 _ C01.lawGood
+    (by decide) 2 _ rfl rfl (by rfl)
 
 end JSV.C07
